@@ -495,6 +495,157 @@ Proof.
   - rewrite H1, H2. destruct (o_kind o); try reflexivity. rewrite andb_false_r. reflexivity.
 Qed.
 
+(* ---------- which nodes are @testonly candidates, exactly ---------- *)
+Definition via_pkg (f : node) : option string :=
+  match n_children f with
+  | x :: _ => match n_kind x, a_obj (n_attrs x) with
+              | KIdent, Some o => match o_kind o with OPkgName => Some (o_imported o) | _ => None end
+              | _, _ => None
+              end
+  | [] => None
+  end.
+
+Definition cand01 (pos : Z) (p tn : string) : diag * option (string * string) :=
+  ({| d_pos := pos; d_code := "TONL01"; d_msg := "[TONL01] type " ++ tn ++ " is marked @testonly and can only be used in test files" |}, Some (p, tn)).
+Definition cand02 (pos : Z) (fn : string) : diag * option (string * string) :=
+  ({| d_pos := pos; d_code := "TONL02"; d_msg := "[TONL02] function " ++ fn ++ " is marked @testonly and can only be called in test files" |}, None).
+Definition cand03 (pos : Z) (mn tn : string) : diag * option (string * string) :=
+  ({| d_pos := pos; d_code := "TONL03"; d_msg := "[TONL03] method " ++ mn ++ " on " ++ tn ++ " is marked @testonly and can only be called in test files" |}, None).
+
+Definition tonl_candidate (n : node) (c : diag * option (string * string)) : Prop :=
+  (* a call whose callee identifier RESOLVES to an annotated package-level function *)
+  (n_kind n = KCallExpr /\ exists f rest o p, n_children n = f :: rest /\ n_kind f = KIdent /\ a_obj (n_attrs f) = Some o /\
+      o_kind o = OFunc /\ o_pkg o = Some p /\ o_is_method o = false /\ tonl_func fs p (o_name o) = true /\ c = cand02 (n_pos n) (o_name o)) \/
+  (* a call pkg.F of an annotated function of the imported package *)
+  (n_kind n = KCallExpr /\ exists f rest p, n_children n = f :: rest /\ n_kind f = KSelectorExpr /\ via_pkg f = Some p /\
+      tonl_func fs p (a_name (n_attrs f)) = true /\ c = cand02 (n_pos n) (a_name (n_attrs f))) \/
+  (* a method call x.M() where the defined type of x carries an annotated method M *)
+  (n_kind n = KCallExpr /\ exists f rest p tn, n_children n = f :: rest /\ n_kind f = KSelectorExpr /\ via_pkg f = None /\
+      type_info (a_ty (n_attrs f)) = Some (p, tn) /\ tonl_method fs p (a_name (n_attrs f)) tn = true /\ c = cand03 (n_pos n) (a_name (n_attrs f)) tn) \/
+  (* a use of an annotated type: composite literal, typed var/const spec, field / parameter / result *)
+  ((n_kind n = KCompositeLit \/ (n_kind n = KValueSpec /\ a_flag (n_attrs n) = true) \/ n_kind n = KField) /\
+   exists p tn, type_info (a_ty (n_attrs n)) = Some (p, tn) /\ tonl_type fs p tn = true /\ c = cand01 (n_pos n) p tn).
+
+Lemma tonl_type_cand_in t pos c :
+  In c (tonl_type_cand fs t pos) <-> exists p tn, type_info t = Some (p, tn) /\ tonl_type fs p tn = true /\ c = cand01 pos p tn.
+Proof.
+  unfold tonl_type_cand. destruct (type_info t) as [[p tn]|].
+  - destruct (tonl_type fs p tn) eqn:E.
+    + split; [intros [<-|[]]; exists p, tn; auto|]. intros (p' & tn' & H & _ & ->). inversion H; subst. left. reflexivity.
+    + split; [intros []|]. intros (p' & tn' & H & H2 & _). inversion H; subst. congruence.
+  - split; [intros []|]. intros (p' & tn' & H & _). discriminate.
+Qed.
+
+(* the three kinds of call candidates, one at a time *)
+Definition ident_cands (pos : Z) (f : node) : list (diag * option (string * string)) :=
+  match a_obj (n_attrs f) with
+  | Some o => match o_kind o, o_pkg o with
+              | OFunc, Some p => if negb (o_is_method o) && tonl_func fs p (o_name o) then [cand02 pos (o_name o)] else []
+              | _, _ => []
+              end
+  | None => []
+  end.
+Definition method_cands (pos : Z) (f : node) : list (diag * option (string * string)) :=
+  match type_info (a_ty (n_attrs f)) with
+  | Some (p, tn) => if tonl_method fs p (a_name (n_attrs f)) tn then [cand03 pos (a_name (n_attrs f)) tn] else []
+  | None => []
+  end.
+Definition sel_cands (pos : Z) (f : node) : list (diag * option (string * string)) :=
+  match via_pkg f with
+  | Some p => if tonl_func fs p (a_name (n_attrs f)) then [cand02 pos (a_name (n_attrs f))] else []
+  | None => method_cands pos f
+  end.
+Definition call_cands (pos : Z) (f : node) : list (diag * option (string * string)) :=
+  match n_kind f with KIdent => ident_cands pos f | KSelectorExpr => sel_cands pos f | _ => [] end.
+
+Lemma tonl_cands_unfold n :
+  tonl_cands fs n =
+  match n_kind n with
+  | KCallExpr => match n_children n with f :: _ => call_cands (n_pos n) f | [] => [] end
+  | KCompositeLit => tonl_type_cand fs (a_ty (n_attrs n)) (n_pos n)
+  | KValueSpec => if a_flag (n_attrs n) then tonl_type_cand fs (a_ty (n_attrs n)) (n_pos n) else []
+  | KField => tonl_type_cand fs (a_ty (n_attrs n)) (n_pos n)
+  | _ => []
+  end.
+Proof.
+  unfold tonl_cands, call_cands, sel_cands, method_cands, ident_cands, via_pkg, tonl_func_diag, cand02, cand03.
+  destruct (n_kind n); reflexivity.
+Qed.
+
+Lemma ident_cands_in pos f c :
+  In c (ident_cands pos f) <->
+  exists o p, a_obj (n_attrs f) = Some o /\ o_kind o = OFunc /\ o_pkg o = Some p /\ o_is_method o = false /\
+              tonl_func fs p (o_name o) = true /\ c = cand02 pos (o_name o).
+Proof.
+  unfold ident_cands. destruct (a_obj (n_attrs f)) as [o|].
+  - destruct (o_kind o) eqn:Ek; try (split; [intros []|intros (o' & p & H & Hk & _); inversion H; subst; congruence]).
+    destruct (o_pkg o) as [p|] eqn:Ep; [|split; [intros []|intros (o' & p & H & _ & Hp & _); inversion H; subst; congruence]].
+    destruct (negb (o_is_method o) && tonl_func fs p (o_name o)) eqn:Eb.
+    + apply andb_true_iff in Eb. destruct Eb as [E1 E2]. apply negb_true_iff in E1. split.
+      * intros [<-|[]]. exists o, p. auto 10.
+      * intros (o' & p' & H & _ & _ & _ & _ & ->). inversion H; subst. left. reflexivity.
+    + split; [intros []|]. intros (o' & p' & H & _ & Hp & Hm & Ht & _). inversion H; subst. rewrite Ep in Hp. inversion Hp; subst.
+      rewrite Hm, Ht in Eb. discriminate.
+  - split; [intros []|intros (o' & p & H & _); discriminate].
+Qed.
+
+Lemma method_cands_in pos f c :
+  In c (method_cands pos f) <->
+  exists p tn, type_info (a_ty (n_attrs f)) = Some (p, tn) /\ tonl_method fs p (a_name (n_attrs f)) tn = true /\ c = cand03 pos (a_name (n_attrs f)) tn.
+Proof.
+  unfold method_cands. destruct (type_info (a_ty (n_attrs f))) as [[p tn]|].
+  - destruct (tonl_method fs p (a_name (n_attrs f)) tn) eqn:E.
+    + split; [intros [<-|[]]; exists p, tn; auto|]. intros (p' & tn' & H & _ & ->). inversion H; subst. left. reflexivity.
+    + split; [intros []|]. intros (p' & tn' & H & H2 & _). inversion H; subst. congruence.
+  - split; [intros []|intros (p & tn & H & _); discriminate].
+Qed.
+
+Lemma sel_cands_in pos f c :
+  In c (sel_cands pos f) <->
+  (exists p, via_pkg f = Some p /\ tonl_func fs p (a_name (n_attrs f)) = true /\ c = cand02 pos (a_name (n_attrs f))) \/
+  (via_pkg f = None /\ exists p tn, type_info (a_ty (n_attrs f)) = Some (p, tn) /\ tonl_method fs p (a_name (n_attrs f)) tn = true /\
+                                     c = cand03 pos (a_name (n_attrs f)) tn).
+Proof.
+  unfold sel_cands. destruct (via_pkg f) as [p|].
+  - destruct (tonl_func fs p (a_name (n_attrs f))) eqn:E.
+    + split; [intros [<-|[]]; left; exists p; auto|]. intros [(p' & H & _ & ->)|(H & _)]; [|discriminate]. left. reflexivity.
+    + split; [intros []|]. intros [(p' & H & H2 & _)|(H & _)]; [|discriminate]. inversion H; subst. congruence.
+  - rewrite method_cands_in. split; [intros H; right; auto|]. intros [(p & H & _)|(_ & H)]; [discriminate|exact H].
+Qed.
+
+Theorem tonl_cands_spec n c : In c (tonl_cands fs n) <-> tonl_candidate n c.
+Proof.
+  rewrite tonl_cands_unfold. unfold tonl_candidate.
+  destruct (n_kind n) eqn:Ek;
+    try (split; [intros []|intros [(H & _)|[(H & _)|[(H & _)|([H|[(H & _)|H]] & _)]]]; discriminate]).
+  - (* ValueSpec *)
+    destruct (a_flag (n_attrs n)) eqn:Ef.
+    + rewrite tonl_type_cand_in. split.
+      * intros H. right. right. right. split; [right; left; auto|exact H].
+      * intros [(H & _)|[(H & _)|[(H & _)|(_ & H)]]]; try discriminate. exact H.
+    + split; [intros []|]. intros [(H & _)|[(H & _)|[(H & _)|([H|[(_ & H)|H]] & _)]]]; discriminate.
+  - rewrite tonl_type_cand_in. split.
+    + intros H. right. right. right. split; [right; right; reflexivity|exact H].
+    + intros [(H & _)|[(H & _)|[(H & _)|(_ & H)]]]; try discriminate. exact H.
+  - rewrite tonl_type_cand_in. split.
+    + intros H. right. right. right. split; [left; reflexivity|exact H].
+    + intros [(H & _)|[(H & _)|[(H & _)|(_ & H)]]]; try discriminate. exact H.
+  - (* CallExpr *)
+    destruct (n_children n) as [|f rest] eqn:Ec.
+    + split; [intros []|]. intros [(_ & f & r & o & p & H & _)|[(_ & f & r & p & H & _)|[(_ & f & r & p & tn & H & _)|([H|[(H & _)|H]] & _)]]]; discriminate.
+    + unfold call_cands. split.
+      * destruct (n_kind f) eqn:Ekf; try (intros []).
+        -- rewrite sel_cands_in. intros [(p & Hv & Ht & ->)|(Hv & p & tn & Hti & Hm & ->)].
+           ++ right. left. split; [reflexivity|]. exists f, rest, p. auto 10.
+           ++ right. right. left. split; [reflexivity|]. exists f, rest, p, tn. auto 10.
+        -- rewrite ident_cands_in. intros (o & p & Ho & Hk & Hp & Hm & Ht & ->). left. split; [reflexivity|]. exists f, rest, o, p. auto 12.
+      * intros [(_ & f' & r & o & p & H & Hk & Ho & Hok & Hp & Hm & Ht & ->)|[(_ & f' & r & p & H & Hk & Hv & Ht & ->)|[(_ & f' & r & p & tn & H & Hk & Hv & Hti & Hm & ->)|([H|[(H & _)|H]] & _)]]];
+          try discriminate; inversion H; subst f' r; rewrite Hk.
+        -- apply ident_cands_in. exists o, p. auto 10.
+        -- apply sel_cands_in. left. exists p. auto.
+        -- apply sel_cands_in. right. split; [exact Hv|]. exists p, tn. auto.
+Qed.
+
 Theorem tonl_func_spec p fn :
   tonl_func fs p fn = true <-> exists a t, has_facts fs p a /\ In t (an_tonl a) /\ ta_kind t = AKFunc /\ ta_name t = fn.
 Proof.
@@ -579,6 +730,65 @@ Proof.
       * apply pkgo_allowed_spec in Ea. split.
         -- intros [<-|[]]. simpl. repeat split; try tauto. rewrite E. discriminate.
         -- intros (_ & _ & _ & _ & _ & ->). left; reflexivity.
+Qed.
+
+Theorem pkgo_type_cand_spec p tn pos c :
+  In c (pkgo_type_cand fs cur_pkg cur_name p tn pos) <->
+  p <> cur_pkg /\ pkgo_denied (pkgo_attach fs AKType p "" tn) /\
+  c = ({| d_pos := pos; d_code := "PKGO01";
+          d_msg := tn ++ " type is @packageonly and cannot be used from " ++ cur_pkg ++ ". Allowed packages: " ++
+                   fmt_list (pkgo_attach fs AKType p "" tn) |}, Some (p, tn)).
+Proof.
+  unfold pkgo_type_cand, pkgo_denied. destruct (pkgo_attach fs AKType p "" tn) as [|x l] eqn:E.
+  - split; [intros []|]. intros (_ & [H _] & _). contradiction.
+  - rewrite <- E. destruct (String.eqb_spec p cur_pkg) as [Ep|Ep]; simpl.
+    + split; [intros []|]. intros (H & _). contradiction.
+    + destruct (pkgo_allowed cur_pkg cur_name (pkgo_attach fs AKType p "" tn)) eqn:Ea; simpl.
+      * split; [intros []|]. intros (_ & (_ & H1 & H2) & _).
+        assert (Hf : pkgo_allowed cur_pkg cur_name (pkgo_attach fs AKType p "" tn) = false) by (apply pkgo_allowed_spec; auto).
+        rewrite Hf in Ea. discriminate.
+      * apply pkgo_allowed_spec in Ea. split.
+        -- intros [<-|[]]. repeat split; try tauto. rewrite E. discriminate.
+        -- intros (_ & _ & ->). left; reflexivity.
+Qed.
+
+Theorem pkgo_method_cand_spec p recv mn pos c :
+  In c (pkgo_method_cand fs cur_pkg cur_name p recv mn pos) <->
+  p <> cur_pkg /\ pkgo_denied (pkgo_attach fs AKMethod p recv mn) /\
+  c = ({| d_pos := pos; d_code := "PKGO03";
+          d_msg := recv ++ "." ++ mn ++ " method is @packageonly and cannot be used from " ++ cur_pkg ++ ". Allowed packages: " ++
+                   fmt_list (pkgo_attach fs AKMethod p recv mn) |}, None).
+Proof.
+  unfold pkgo_method_cand, pkgo_denied. destruct (pkgo_attach fs AKMethod p recv mn) as [|x l] eqn:E.
+  - split; [intros []|]. intros (_ & [H _] & _). contradiction.
+  - rewrite <- E. destruct (String.eqb_spec p cur_pkg) as [Ep|Ep]; simpl.
+    + split; [intros []|]. intros (H & _). contradiction.
+    + destruct (pkgo_allowed cur_pkg cur_name (pkgo_attach fs AKMethod p recv mn)) eqn:Ea; simpl.
+      * split; [intros []|]. intros (_ & (_ & H1 & H2) & _).
+        assert (Hf : pkgo_allowed cur_pkg cur_name (pkgo_attach fs AKMethod p recv mn) = false) by (apply pkgo_allowed_spec; auto).
+        rewrite Hf in Ea. discriminate.
+      * apply pkgo_allowed_spec in Ea. split.
+        -- intros [<-|[]]. repeat split; try tauto. rewrite E. discriminate.
+        -- intros (_ & _ & ->). left; reflexivity.
+Qed.
+
+(* which nodes are looked at: a selector whose object lives in another package, or a plain identifier whose object
+   lives in the analysed package (dot-imported names resolve there as well and are then judged as own) *)
+Theorem pkgo_cands_spec n c :
+  In c (pkgo_cands fs cur_pkg cur_name n) <->
+  exists o p, a_obj (n_attrs n) = Some o /\ o_pkg o = Some p /\
+              ((n_kind n = KSelectorExpr /\ p <> cur_pkg /\ In c (pkgo_obj_cand fs cur_pkg cur_name o p (n_pos n))) \/
+               (n_kind n = KIdent /\ p = cur_pkg /\ In c (pkgo_obj_cand fs cur_pkg cur_name o cur_pkg (n_pos n)))).
+Proof.
+  unfold pkgo_cands. split.
+  - destruct (n_kind n) eqn:Ek; try (intros []).
+    + destruct (a_obj (n_attrs n)) as [o|]; [|intros []]. destruct (o_pkg o) as [p|] eqn:Ep; [|intros []].
+      destruct (String.eqb_spec p cur_pkg) as [E|E]; [intros []|]. intros H. exists o, p. repeat split; auto.
+    + destruct (a_obj (n_attrs n)) as [o|]; [|intros []]. destruct (o_pkg o) as [p|] eqn:Ep; [|intros []].
+      destruct (String.eqb_spec p cur_pkg) as [E|E]; [|intros []]. intros H. exists o, p. subst p. split; [reflexivity|]. split; [exact Ep|]. right. auto.
+  - intros (o & p & Ho & Hp & [(Hk & Hne & Hc)|(Hk & He & Hc)]); rewrite Hk, Ho, Hp.
+    + destruct (String.eqb_spec p cur_pkg); [contradiction|exact Hc].
+    + subst p. rewrite String.eqb_refl. exact Hc.
 Qed.
 
 Theorem pkgo_file_spec f :
